@@ -33,7 +33,10 @@ var (
 	tokAttr = []string{"{#id}", "{.cls}", "{#i .c k=v}", "{k=\"v\"}", "{data-x=y}", "{onclick=\"x\"}", "{#a #b}", "{.a.b}", "{k='v'}", "{k=v w}", "{", "}", " {#x}", "{#é}", "{k=\"a&b<c>\"}", "{k=\"a\\\"b\"}", "{style=\"x\"}", "{a=1 a=2}", "{title=\"<\"}", "{#}", "{.}", "{=}", "{k=}", "{k=\"", "{#id .c}\n", "{class=a .b}", "{class=a class=b}", "{.a class=b}", "{class=a .b .c}", "{id=1}", "{id=1.5}", "{id=-2}", "{id=true}", "{id=null}", "{class=1 .x}", "{k=1e3}", "{id=[1]}", "{id={a=b}}", "{id=\"x\" id=2}", "# h {class=foo .bar}\n", "# h {id=1}\n", "h {id=0}\n===\n", "{k=false .c}", "{class=\"a\" class=b}",
 		// list / nested values whose string elements carry markup characters
 		"{title=[\"a\\\"b\"]}", "{data-x=[\"<\", \"&\", \"\\\">\"]}", "# h {title=[x, \"\\\"><script>alert(1)</script>\"]}\n", "{class=[\"a\\\"b\" c]}", "{data-y=[[\"\\\" o=\\\"1\"]]}",
-		"# h {title=[\"\\\" onmouseover=\\\"x\"]}\n", "{data-z=[1, true, \"q\\\"r\"]}", "{id=[\"a&b\"]}", "{title=[\"<b>\"] .c}", "## ## {#id}\n", "# # {.c}\n", "### b ### {#i .c}\n", "## ## {k=v}\n", "# #\n", "## ##\n", "#  # {#x}", "h {lang=[\"x\\\"y\", 2]}\n---\n"}
+		"# h {title=[\"\\\" onmouseover=\\\"x\"]}\n", "{data-z=[1, true, \"q\\\"r\"]}", "{id=[\"a&b\"]}", "{title=[\"<b>\"] .c}", "## ## {#id}\n", "# # {.c}\n", "### b ### {#i .c}\n", "## ## {k=v}\n", "# #\n", "## ##\n", "#  # {#x}", "h {lang=[\"x\\\"y\", 2]}\n---\n",
+		// an id / class / bare word followed by a number or boolean on a name the attribute filters let through; escaped quoted values
+		"# Install {#install tabindex=3}\n", "{#i tabindex=3}", "{.c hidden=true}", "# h {hidden=true}\n", "# h {#i data-n=1.5 hidden=false}\n", "{title=t tabindex=-1 data-b=false}", "h {lang=en tabindex=12}\n===\n",
+		"# t {title=\"say \\\"hi\\\"\"}\n", "# u {title=\"C:\\\\temp\\\\new\" data-k=\"q\\\"r\"}\n", "{title=\"a\\\"b\" tabindex=7}", "## v {data-a=\"x\\\\y\" data-b=\"p\\\"q\" data-c=2}\n"}
 	tokExt = []string{"~~", "~", "~~~", "~~a~~", "|", "|-|", "|:-:|", "| - | - |", "|a|b|\n|-|-|\n|c|d|", "---|---", ":--", "--:", ":-:", "\\|", "[^1]", "[^1]:", "[^a]: ", "[^", "^]", "[ ]", "[x]", "[X] ", "- [ ] ", "- [x] ", ": ", ":", "\n: ", "\n:   ", "'", "\"", "--", "---", "...", "<<", ">>", "''", "\"a\"", "'a'", "a's", "\\ ", "(c)", "1'", "''\"", "'ve", "'re", "'ll", "'d", "'m", "'t", "'s", " 've\n", " 're\n\n", "we 'll", "I've", "'r", "'v", "\"'", "--\n", "...\n", "<<\n", "| `x` \\| y |", "| `p\\|q` |", "`x\\|y` | z\n--|--|--\n", "|a|\n|-|\n| `p\\|q` |\n", "|a|b|\n|-|-|\n| `x` \\| y | z |\n", "|`a\\|b`|\n|-|\n|`c\\|d`|e\\|f|\n", "\\|`", "`\\|", "|a|\n|-|\n|`<b>\\|`|\n", "`<\\|`", "`\"\\|&`"}
 	// near-triggers: look like an extension's syntax but with the wrong letter case, width or character
 	tokNear = []string{"WWW.example.com", "Www.a.bc", "wWw.x.org/p", "ww.example.com", "wwww", "HTTP", "Https", "ftp.example.com", "example.com/path", "a.b.co",
@@ -41,7 +44,9 @@ var (
 		"[\\^1]", "[ ^1]", "^1", "[\\^1]: n\n", "a\n\uff1a b\n", "a\n; b\n", "a\n  ~ b\n", "`` q \u00b4\u00b4", "(tm)", "(r)", "1/2", "+-", "\u2019", "\u2026", "\u00aba\u00bb",
 		"\u2018a\u2019", "\u201ca\u201d", "a\\\tb", "WWW.A.BC\n", " Www.e.fg ", "(WWW.h.ij)", "*WWW.k.lm*", "HTTP\uff1a//n.op"}
 	tokHost = []string{"\x00", "\x00\x00", "\x80", "\xbf", "\x80\x80", "\xc3", "\xe6\x97", "\xf0\x9f\x98", "\xc0\xaf", "\xff", "\xfe", "\xef\xbb\xbf", "\u200b", "\u00a0", "\u2003", "\u3000", "　", "、", "。", "（", "）", "「", "」", "ｱ", "가", "😀", "\x01", "\x1b", "\x7f", "\x0b", "\x0c", "\u2028", "\u0085", "İ", "ǅ", "ſ", "K", "ς",
-		"日本 \n語", "語\n語", "a\n語", "語\na", "、\n語", "語 \n 語", "語\\\n語", "語  \n語", "語\n*語*", "*語*\n語", "語\n`a`", "ｱ\nｲ", "가\n나", "語\n\x80", "\x80\n語", "語\n", "\n語"}
+		"日本 \n語", "語\n語", "a\n語", "語\na", "、\n語", "語 \n 語", "語\\\n語", "語  \n語", "語\n*語*", "*語*\n語", "語\n`a`", "ｱ\nｲ", "가\n나", "語\n\x80", "\x80\n語", "語\n", "\n語",
+		// Unicode white space next to a line ending, alone and after an ASCII blank
+		"あ \u3000\nい", "語\u3000\n語", "語\u00a0\n語", "a\u00a0\nb", "a \u00a0\n b", "語 \u2003\n語", "a\u2028\nb", "語\t\u3000\n語", "\u3000\n", " \u00a0\n", "\u3000 \n語", "*語*\u3000\n語"}
 )
 
 type tokenTable struct {
